@@ -4,6 +4,7 @@
   fragment, every environment and both splitting contexts.
 -/
 import YashModel.Expansion.Lemmas
+import YashModel.Expansion.TrimLemmas
 namespace YashModel.Expansion
 
 /-- denotation of a model result: the phrase as its list of fields -/
@@ -122,7 +123,7 @@ mutual
           rw [hx] at hw
           cases r with
           | error e => simp only [den_error] at hw; simp [← hw]
-          | ok ph => simp only [den_ok] at hw; simp [← hw, toFields_finishParam, ifsJoin_eq]
+          | ok ph => simp only [den_ok] at hw; simp [← hw, toFields_finishParam, ifsJoin_eq, trimApply_eq_posixTrim]
     | .switch cond act w, env, ws, p, v => by
       simp only [expandParam, posixParam]
       have htab := switch_decision_table act cond (Vacancy.of v)
